@@ -63,7 +63,15 @@ class FiberBase : public BiNodeScheduler, public BiNodeWaitQueue {
   std::exception_ptr _exception;
 
  private:
+  // State of the C++ runtime about exceptions being handled (__cxa_eh_globals): thread-local for the runtime,
+  // so it has to be switched together with the stack, like every other thread-local of a fiber
+  struct EhGlobals {
+    void* caught_exceptions = nullptr;
+    unsigned int uncaught_exceptions = 0;
+  };
+
   ExecutionContext _caller_context{};
+  EhGlobals _eh;
   std::unordered_map<std::uint64_t, void*> _tls;
   FiberBase* _joining_fiber = nullptr;
   Id _id;
